@@ -421,10 +421,10 @@ func fnHello(ctx *cmdContext, args map[string]any) (output respValue, err error)
 				output.data = respErrorString("NOPROTO unsupported protocol version")
 				return
 			}
-			ctx.cs.respVersion = int(ver)
+			ctx.cs.setRespVersion(int(ver))
 		}
 		if clientName, hasName := helloArgs.get("clientname"); hasName {
-			ctx.cs.name = clientName.(string)
+			ctx.cs.setName(clientName.(string))
 		}
 	}
 
